@@ -198,15 +198,22 @@ inductive Crud where
   | okReadonly       -- GET found the object, readonly
   | okMatch          -- GET found the object, template evaluated, it matched
   | createRetry      -- GET found nothing, template evaluated, POST, Retry
+  | deletedAbsent    -- deleteIfExists, GET found nothing: the result is the empty map `{}` — an Ok result
+  | deleting         -- deleteIfExists, GET found the object: DELETE, Retry
   deriving Repr, DecidableEq, Inhabited
 
 def Crud.trace : Crud → List Ev
   | .okReadonly => [.api]
   | .okMatch => [.api, .resource]
   | .createRetry => [.api, .resource, .api]
+  | .deletedAbsent => [.api]
+  | .deleting => [.api, .api]
 
+/-- `is_unwrapped_ok(reconcile_result.result)`: every result that is not a Retry/PermFail, the
+    empty map of an already-deleted object included -/
 def Crud.isOk : Crud → Bool
   | .createRetry => false
+  | .deleting => false
   | _ => true
 
 /-- `reconcile_resource_function`: preconditions, locals, the Kubernetes part (apiConfig, plural
